@@ -557,7 +557,7 @@ package vegeta
 //@     invariant atk.began == old(atk.began) && atk.began <= clock(0) && !held(&atk.seqmu) && a.stopch == old(a.stopch) && (closed(a.stopch) <==> done(&a.stopOnce))
 
 //@ func (*Attacker).Attack
-//@   property C02 C03
+//@   property C02 C03 C04
 //@   requires [non-nil] a != nil && a.stopch != nil && p != nil && tr != nil
 //@   requires [stop-flags-consistent] closed(a.stopch) <==> done(&a.stopOnce)
 //@   assume   [clock-range] clock(0) >= 0
@@ -598,6 +598,28 @@ package vegeta
 //@   ensures [nil-target-rejected] tgt == nil ==> err == ErrNilTarget && i == old(i)
 //@   ensures [strict-rotation] tgt != nil ==> err == nil && i == old(i) + 1 && *tgt == tgts[emod(i, len(tgts))]
 //@   ensures [targets-untouched] forall j int :: 0 <= j && j < len(tgts) ==> tgts[j] == old(tgts[j])
+
+// Generated JSON encoder for targets: the documented keys in order (method, url, then body and header
+// only when non-empty), method and URL as they are, the body in base64, and under "header" only names
+// that are keys of the target's header map, each with the value slice the map holds for it. Only the
+// writer is written: the target's maps and slices are left alone.
+//@ func (jsonTarget).encode
+//@   property C14
+//@   requires [non-nil] out != nil
+//@   modifies *out
+//@   ghost nkeys int
+//@   ghost lastKey string
+//@   before call RawString: assert [documented-keys-in-order] (nkeys == 0 ==> arg1 == "\"method\":") && (nkeys == 1 ==> arg1 == ",\"url\":")
+//@          && (nkeys >= 2 ==> arg1 == ",\"body\":" || arg1 == ",\"header\":" || arg1 == "null") && (arg1 == ",\"body\":" ==> nkeys == 2 && len(t.Body) != 0) && (arg1 == ",\"header\":" ==> len(t.Header) != 0) ;
+//@        ghost lastKey = (arg1 == "null" ? lastKey : arg1) ; ghost nkeys = nkeys + (arg1 == "null" ? 0 : 1)
+//@   before call String: assert [method-and-url-as-they-are] (lastKey == "\"method\":" ==> arg1 == t.Method) && (lastKey == ",\"url\":" ==> arg1 == t.URL) && lastKey != ",\"body\":" && nkeys >= 1
+//@   before call Base64Bytes: assert [body-base64] lastKey == ",\"body\":" && arg1 == t.Body
+//@   ensures [method-and-url-always-written] nkeys >= 2
+//@   loop 1
+//@     invariant nkeys >= 2 && lastKey == ",\"header\":" && out == old(out)
+//@   loop 2
+//@     invariant nkeys >= 2 && lastKey == ",\"header\":" && out == old(out) && -1 <= rangeindex && rangeindex < len(v6Value) && has(t.Header, v6Name) && ptr(v6Value) == ptr(t.Header[v6Name]) && len(v6Value) == len(t.Header[v6Name])
+//@     decreases len(v6Value) - rangeindex
 
 // Generated JSON decoder for targets: key <-> field pairing, safety, termination (as for results).
 //@ func (*jsonTarget).decode
@@ -786,7 +808,7 @@ package vegeta
 // CSV: the twelve documented columns, in the documented order and units; the decoder is the
 // column-by-column inverse. (README "Results", encode.go usage.)
 //@ func headerBytes
-//@   property C07
+//@   property C07 C08
 //@   modifies nothing
 //@   ensures [nil-header-is-empty-column] h == nil ==> result == nil
 //@   ensures [non-nil-header-is-never-an-empty-column] h != nil ==> len(result) >= 2
